@@ -91,8 +91,11 @@ def mixcase(rng, s):
 
 
 def gen_schema(rng, handlers=False, max_types=5, section_dts=("zcv.dt.wrap",),
-               value_dts=None, allow_required_defaults=False, keytypes=None, derive_bias=0.3, boost=0.1):
+               value_dts=None, allow_required_defaults=None, keytypes=None, derive_bias=0.3, boost=0.1):
     """-> AST dict (see module docstring of zcv.refload for the reading of it)."""
+    if allow_required_defaults is None:
+        # zone U4 (required items that also carry <default> elements) in one schema out of seven
+        allow_required_defaults = rng.random() < 0.15
     value_dts = value_dts or KEY_DATATYPES
     keytypes = keytypes or KEYTYPES
     ast = {"keytype": None, "datatype": None, "handler": None, "abstract": [], "types": [],
